@@ -78,9 +78,9 @@ class Monitors(Listener):
     def want(self, p):
         return self.props is None or p in self.props
 
-    def viol(self, prop, kind, detail):
+    def viol(self, prop, kind, detail, sig=None):
         if self.want(prop):
-            self.v.append({"prop": prop, "kind": kind, "detail": detail,
+            self.v.append({"prop": prop, "kind": kind, "detail": detail, "sig": sig or kind,
                            "time": fr(self.sim.env.now)})
 
     # ------------------------------------------------------------------ hooks
@@ -335,7 +335,13 @@ class Monitors(Listener):
         # C07 bounds + accounting
         hot, cold = sim.buffer.hot[0], sim.buffer.cold[0]
         if hot.current_capacity < 0 or hot.current_capacity > hot.total_capacity:
-            self.viol("C07", "hot-free-space-out-of-range", "%s of %s" % (fr(hot.current_capacity), fr(hot.total_capacity)))
+            # K3 predicate: the volumes of the observations admitted and not yet removed exceed the capacity
+            committed = sum(o.ingest_data_rate * o.duration for o in tel.observations
+                            if o.name in self.admit and o not in hot.observations["finished"])
+            over = committed > hot.total_capacity and hot.current_capacity < 0
+            self.viol("C07", "hot-free-space-out-of-range", "%s of %s (committed volumes %s)" % (
+                fr(hot.current_capacity), fr(hot.total_capacity), fr(committed)),
+                sig="hot-free-space-out-of-range" + (":overcommit" if over else ""))
         if cold.current_capacity < 0 or cold.current_capacity > cold.total_capacity:
             self.viol("C07", "cold-free-space-out-of-range", "%s of %s" % (fr(cold.current_capacity), fr(cold.total_capacity)))
         if self.tier_moves == 0:
